@@ -163,7 +163,10 @@ func hdrKey(i, k int) string { return fmt.Sprintf("X-Verif-Reg-%d-%d", i, k) }
 func secret(i int) string    { return fmt.Sprintf("secret-of-host-%d", i) }
 
 func extHostName(h int, names []string) string {
-	if h >= 100 {
+	if h >= 110 && h < 110+nExt {
+		return fmt.Sprintf("cdn-%d.example:8443", h-110) // the same machine on another port is another host
+	}
+	if h >= 100 && h < 100+nExt {
 		return fmt.Sprintf("cdn-%d.example", h-100)
 	}
 	if h >= 0 && h < len(names) {
@@ -172,8 +175,28 @@ func extHostName(h int, names []string) string {
 	return ""
 }
 
+// Location forms. ext:H:N is an absolute URL on host H; N selects the spelling:
+//
+//	0-2 https://H/other/N?sig=N   3 http://   4 HTTPS:// (upper-case scheme)   5 userinfo   6 with fragment
+//
+// rel:H:N is the scheme-relative reference //H/other/N?sig=N; rel:-:N a reference without host.
+var relTexts = []string{"/other/0?sig=0", "other/1", "?sig=2", "../x/3"}
+
+const nExtForms = 7
+
 func (w *world) extURL(h, n int) string {
-	return fmt.Sprintf("https://%s/other/%d?sig=%d", extHostName(h, w.hostNames), n, n)
+	host := extHostName(h, w.hostNames)
+	switch n {
+	case 3:
+		return fmt.Sprintf("http://%s/other/%d?sig=%d", host, n, n)
+	case 4:
+		return fmt.Sprintf("HTTPS://%s/other/%d?sig=%d", host, n, n)
+	case 5:
+		return fmt.Sprintf("https://user:pw@%s/other/%d?sig=%d", host, n, n)
+	case 6:
+		return fmt.Sprintf("https://%s/other/%d?sig=%d#part", host, n, n)
+	}
+	return fmt.Sprintf("https://%s/other/%d?sig=%d", host, n, n)
 }
 
 func realmURL(n int) string { return fmt.Sprintf("https://auth-%d.example/token", n) }
@@ -185,17 +208,28 @@ func (w *world) hostID(name string) int {
 			return i
 		}
 	}
-	var k int
-	if _, err := fmt.Sscanf(name, "cdn-%d.example", &k); err == nil {
-		return 100 + k
+	for k := 0; k < nExt; k++ {
+		if name == fmt.Sprintf("cdn-%d.example", k) {
+			return 100 + k
+		}
+		if name == fmt.Sprintf("cdn-%d.example:8443", k) {
+			return 110 + k
+		}
 	}
 	return -1
 }
 
+// locURL: the text put into a Location header for a location description ("" = none)
 func (w *world) locURL(l string) string {
 	var h, n int
-	if _, err := fmt.Sscanf(l, "ext:%d:%d", &h, &n); err == nil && extHostName(h, w.hostNames) != "" && validHost(extHostName(h, w.hostNames)) {
+	if _, err := fmt.Sscanf(l, "ext:%d:%d", &h, &n); err == nil && validHost(extHostName(h, w.hostNames)) && n >= 0 && n < nExtForms {
 		return w.extURL(h, n)
+	}
+	if _, err := fmt.Sscanf(l, "rel:-:%d", &n); err == nil && n >= 0 && n < len(relTexts) {
+		return relTexts[n]
+	}
+	if _, err := fmt.Sscanf(l, "rel:%d:%d", &h, &n); err == nil && validHost(extHostName(h, w.hostNames)) && n >= 0 && n < 3 {
+		return fmt.Sprintf("//%s/other/%d?sig=%d", extHostName(h, w.hostNames), n, n)
 	}
 	if _, err := fmt.Sscanf(l, "blob:%d", &n); err == nil && n >= 0 && n < len(w.blobURLs) && validHost(w.hostNames[n]) {
 		return w.blobURLs[n]
@@ -203,24 +237,34 @@ func (w *world) locURL(l string) string {
 	return ""
 }
 
+// urlLoc: the location description of the URL a request was built for
 func (w *world) urlLoc(u string) string {
 	for i, b := range w.blobURLs {
 		if u == b {
 			return fmt.Sprintf("blob:%d", i)
 		}
 	}
-	hs := []int{100, 101, 102}
-	for i := range w.hostNames {
-		hs = append(hs, i)
-	}
-	for _, h := range hs {
-		for n := 0; n < 3; n++ {
-			if u == w.extURL(h, n) {
-				return fmt.Sprintf("ext:%d:%d", h, n)
-			}
+	for n, t := range relTexts {
+		if u == t {
+			return fmt.Sprintf("rel:-:%d", n)
 		}
 	}
-	return "?" + u
+	pu, err := url.Parse(u)
+	if err != nil {
+		return "?" + u
+	}
+	var n int
+	if _, err := fmt.Sscanf(pu.Path, "/other/%d", &n); err != nil || pu.RawQuery != fmt.Sprintf("sig=%d", n) {
+		return "?" + u
+	}
+	h := w.hostID(pu.Host)
+	if h < 0 {
+		return "?" + u
+	}
+	if pu.Scheme == "" {
+		return fmt.Sprintf("rel:%d:%d", h, n)
+	}
+	return fmt.Sprintf("ext:%d:%d", h, n)
 }
 
 func (w *world) hdrOf(h http.Header) int {
@@ -388,6 +432,10 @@ func (w *world) RoundTrip(req *http.Request) (*http.Response, error) {
 	}
 	if req.Method != "GET" && req.Method != "HEAD" {
 		w.problems = append(w.problems, "unexpected method "+req.Method)
+	}
+	if (req.URL.Scheme != "http" && req.URL.Scheme != "https") || req.URL.Host == "" {
+		// what net/http's transport does with a URL that is not an absolute http(s) URL (e.g. a relative Location taken verbatim)
+		return nil, errors.New("unsupported protocol scheme or no host")
 	}
 	if r.Err {
 		return nil, errors.New("scripted transport error")
@@ -762,15 +810,23 @@ func genChal(r *hx.Rng) string {
 
 func genResp(r *hx.Rng, nhosts int, bias string) Resp {
 	loc := func() string {
-		switch r.Pick(60, 15, 15, 10) {
+		switch r.Pick(40, 12, 12, 8, 10, 6, 6, 6) {
 		case 0:
 			return fmt.Sprintf("ext:%d:%d", 100+r.Intn(nExt), r.Intn(3))
 		case 1:
 			return fmt.Sprintf("ext:%d:%d", r.Intn(nhosts), r.Intn(2))
 		case 2:
 			return fmt.Sprintf("blob:%d", r.Intn(nhosts))
-		default:
+		case 3:
 			return ""
+		case 4: // other spellings of an absolute URL: http, upper-case scheme, userinfo, fragment, other port
+			return fmt.Sprintf("ext:%d:%d", []int{100, 110}[r.Intn(2)]+r.Intn(nExt), 3+r.Intn(nExtForms-3))
+		case 5: // scheme-relative reference to another host
+			return fmt.Sprintf("rel:%d:%d", []int{100, 110}[r.Intn(2)]+r.Intn(nExt), r.Intn(3))
+		case 6: // scheme-relative reference to a registry host
+			return fmt.Sprintf("rel:%d:%d", r.Intn(nhosts), r.Intn(3))
+		default: // path-absolute, path-relative, query-only references
+			return fmt.Sprintf("rel:-:%d", r.Intn(len(relTexts)))
 		}
 	}
 	wf := !r.Chance(1, 12)
@@ -956,6 +1012,12 @@ func coqLoc(l string) string {
 	if _, err := fmt.Sscanf(l, "ext:%d:%d", &h, &n); err == nil {
 		return fmt.Sprintf("(Ext %d %d)", h, n)
 	}
+	if _, err := fmt.Sscanf(l, "rel:-:%d", &n); err == nil {
+		return fmt.Sprintf("(Rel None %d)", n)
+	}
+	if _, err := fmt.Sscanf(l, "rel:%d:%d", &h, &n); err == nil {
+		return fmt.Sprintf("(Rel (Some %d) %d)", h, n)
+	}
 	if _, err := fmt.Sscanf(l, "blob:%d", &n); err == nil {
 		return fmt.Sprintf("(Blob %d)", n)
 	}
@@ -1084,6 +1146,7 @@ func coqCase(c Case) string {
 	names = append(names, fmt.Sprintf("(%d, %s)", len(c.Mirrors), coqStr(refHost)))
 	for k := 0; k < nExt; k++ {
 		names = append(names, fmt.Sprintf("(%d, %s)", 100+k, coqStr(fmt.Sprintf("cdn-%d.example", k))))
+		names = append(names, fmt.Sprintf("(%d, %s)", 110+k, coqStr(fmt.Sprintf("cdn-%d.example:8443", k))))
 	}
 	ops := make([]string, len(c.Ops))
 	for i, o := range c.Ops {
@@ -1164,6 +1227,27 @@ func main() {
 		if c.HostsErr {
 			ctx.Count("hosts.error")
 		}
+		countLoc := func(r Resp) {
+			switch {
+			case r.Err || r.Code/100 != 3 || r.Loc == "":
+			case strings.HasPrefix(r.Loc, "rel:-"):
+				ctx.Count("location.no-host-reference")
+			case strings.HasPrefix(r.Loc, "rel:"):
+				ctx.Count("location.scheme-relative")
+			case strings.HasPrefix(r.Loc, "ext:") && atoi(r.Loc[strings.LastIndex(r.Loc, ":")+1:]) >= 3:
+				ctx.Count("location.absolute-other-spelling")
+			case strings.HasPrefix(r.Loc, "ext:11"):
+				ctx.Count("location.absolute-other-port")
+			default:
+				ctx.Count("location.absolute")
+			}
+		}
+		for _, r := range c.Script {
+			countLoc(r)
+		}
+		for _, o := range c.Ops {
+			countLoc(o.R)
+		}
 		if c.Storm > 0 {
 			ctx.Count("storm")
 		}
@@ -1176,6 +1260,9 @@ func main() {
 			if strings.HasPrefix(q.Loc, "ext:") {
 				redirected = true
 				ctx.Count("req.to-redirect-location")
+			}
+			if strings.HasPrefix(q.Loc, "rel:") {
+				ctx.Count("req.to-relative-location")
 			}
 			switch {
 			case strings.HasPrefix(q.Az, "basic"):
@@ -1312,6 +1399,19 @@ func main() {
 			Ops: []Op{{Op: "spawn", Kind: "fetch", Retry: true}, {Op: "resume", T: 0}, {Op: "resume", T: 0}, {Op: "resume", T: 0, R: Resp{Code: 403}},
 				{Op: "resume", T: 0, R: Resp{Code: 401, Chal: "bearer:0"}, Toks: []Resp{{Code: 401}, {Code: 200, WF: true}}}, {Op: "resume", T: 0, R: Resp{Code: 200, WF: true}},
 				{Op: "resume", T: 0}, {Op: "resume", T: 0, R: Resp{Code: 401, Chal: "bearer:0:err"}, Toks: tokOK}, {Op: "resume", T: 0, R: ok}}},
+	}
+	// deterministic sweep over Location forms: the resolution is redirected to the form (size probe follows), a fetch runs,
+	// the location expires (403), the refresh is redirected to the next form, the fetch retries, a check runs
+	forms := []string{"ext:100:0", "ext:100:3", "ext:100:4", "ext:100:5", "ext:100:6", "ext:110:0", "ext:0:1", "blob:1",
+		"rel:100:0", "rel:110:1", "rel:0:2", "rel:1:0", "rel:-:0", "rel:-:1", "rel:-:2", "rel:-:3"}
+	m2 := []HostCfg{{Name: "mirror-0.example", Tab: true, Vals: []string{"s"}}, {Name: "mirror-1.example", Tab: true, Vals: []string{"l"}}}
+	for i, f := range forms {
+		g := forms[(i+5)%len(forms)]
+		corpus = append(corpus, Case{Mirrors: m2, Auth: up("mirror-0.example"), Script: []Resp{redir(f), {Code: 405}, ok},
+			Ops: []Op{{Op: "spawn", Kind: "fetch", Retry: true}, {Op: "resume", T: 0}, {Op: "resume", T: 0}, {Op: "resume", T: 0, R: Resp{Code: 403}},
+				{Op: "resume", T: 0, R: redir(g)}, {Op: "resume", T: 0}, {Op: "resume", T: 0, R: ok},
+				{Op: "spawn", Kind: "check"}, {Op: "resume", T: 1}, {Op: "resume", T: 1}, {Op: "resume", T: 1, R: Resp{Code: 403}}, {Op: "resume", T: 1, R: redir(f)},
+				{Op: "spawn", Kind: "fetch", Retry: true}, {Op: "resume", T: 2}, {Op: "resume", T: 2}, {Op: "resume", T: 2, R: ok}}})
 	}
 	for _, c := range corpus {
 		emit(c, nil)
